@@ -191,3 +191,60 @@ Proof.
   rewrite seq_length, firstn_length, skipn_length, L.
   destruct d, ep; cbn in *; lia.
 Qed.
+
+(** ** uniqueness of the Chebyshev coefficients and the round trip *)
+Definition vdiff (c c' : list R) : list R := map (fun p => -1 * fst p + snd p) (combine c c').
+
+Lemma vdiff_zero c c' : length c = length c' -> Forall (fun v => v = 0) (vdiff c c') -> c' = c.
+Proof.
+  revert c'. induction c as [|x c IH]; intros [|y c'] L H; try discriminate L; [reflexivity|].
+  unfold vdiff in H. cbn [combine map fst snd] in H. inversion H as [|? ? H1 H2]; subst.
+  f_equal; [lra|]. apply IH; [cbn in L; lia|exact H2].
+Qed.
+
+Lemma omatvec_vdiff m c c' : length c = length c' ->
+  omatvec ROps m (vdiff c c') =
+  map (fun p => -1 * fst p + snd p) (combine (omatvec ROps m c) (omatvec ROps m c')).
+Proof.
+  intro L. unfold omatvec, vdiff. induction m as [|r m IH]; [reflexivity|].
+  cbn [map combine fst snd]. rewrite IH. f_equal. now apply odot_linear.
+Qed.
+
+Lemma vdiff_self v : Forall (fun x => x = 0) (map (fun p => -1 * fst p + snd p) (combine v v)).
+Proof. induction v as [|x v IH]; cbn; constructor; [ring|exact IH]. Qed.
+
+(** two coefficient vectors with the same grid values are equal *)
+Theorem tnMatrix_unique d ep M N grid c c' :
+  grid_ok d M N grid -> sizes_ok d M N ->
+  length c = length (cfg_range (cfg_changeBasis d ep M N)) -> length c' = length c ->
+  omatvec ROps (tnMatrix ROps d ep grid M N) c' = omatvec ROps (tnMatrix ROps d ep grid M N) c ->
+  c' = c.
+Proof.
+  intros G HS L L' E. apply vdiff_zero; [now symmetry|].
+  apply (tnMatrix_injective d ep M N grid (vdiff c c') G HS).
+  - unfold vdiff. rewrite map_length, combine_length, L'. rewrite Nat.min_id. exact L.
+  - rewrite omatvec_vdiff by (now symmetry). rewrite E. apply vdiff_self.
+Qed.
+
+(** round trip.  [inv] stands for what the implementation computes with np.linalg.inv; the
+    only thing assumed about it is the RESIDUAL property  T (inv v) = v  (checked on every
+    run by applying the model matrix to the implementation's output).  Then both round trips
+    hold: Chebyshev -> Cardinal -> Chebyshev returns the coefficients (this is where
+    injectivity of the basis matrix is used), and Cardinal -> Chebyshev -> Cardinal returns
+    the grid values. *)
+Theorem roundtrip_from_residual d ep M N grid (inv : list R -> list R) :
+  grid_ok d M N grid -> sizes_ok d M N ->
+  let n := length (cfg_range (cfg_changeBasis d ep M N)) in
+  let T := tnMatrix ROps d ep grid M N in
+  (forall v, length v = n -> length (inv v) = n /\ omatvec ROps T (inv v) = v) ->
+  (forall c, length c = n -> inv (omatvec ROps T c) = c) /\
+  (forall v, length v = n -> omatvec ROps T (inv v) = v).
+Proof.
+  intros G HS n T Hinv. split; [|intros v Lv; now apply Hinv].
+  intros c Lc.
+  assert (Lt : length (omatvec ROps T c) = n).
+  { unfold omatvec, T, tnMatrix. rewrite !map_length.
+    destruct G as [_ [Lg _]]. symmetry. now apply tnMatrix_square. }
+  destruct (Hinv _ Lt) as [Li Ei].
+  apply (tnMatrix_unique d ep M N grid c (inv (omatvec ROps T c)) G HS Lc); [lia|exact Ei].
+Qed.
